@@ -433,6 +433,9 @@ val reads_actual : state -> argkind -> expr -> event list
 
 val reads_actuals : state -> (sym * argkind) list -> expr list -> event list
 
+val reads_bind_args :
+  (sym * argkind) list -> binding list -> state -> event list
+
 val seqZ : z -> nat -> z list
 
 val iter_list_fp :
